@@ -226,7 +226,7 @@ def owner_of(rel: str, ir, op_modules: dict) -> tuple | None:
                     best = (("schema", n), sn)
         for i, op in enumerate(ir["ops"]):
             for cand in op_modules.get(i, []):
-                if stem == cand or stem.startswith(cand + "_"):
+                if stem.replace("_", "").startswith(cand.replace("_", "")):  # module and class snake-casing differ ("v_1" vs "v1")
                     if best is None or len(cand) > len(best[1]):
                         best = (("op", i), cand)
         return best[0] if best else None
